@@ -266,11 +266,10 @@ fn radiation_identities(cw: &mut CaseWriter) {
             let monthly = |az: f32| -> (Vec<f32>, Vec<f32>) {
                 let mut dir = vec![0.0f32; 12];
                 let mut dif = vec![0.0f32; 12];
-                for d in &met.data {
-                    let nday = climate::nday_from_ymd(2001, d.month, d.day);
-                    let r = radiation_for_surface(nday, d.hour, SolarRadiation { dir: d.rdirhor, dif: d.rdifhor }, lat, tilt, az, 0.2);
-                    dir[d.month as usize - 1] += r.dir / 1000.0;
-                    dif[d.month as usize - 1] += r.dif / 1000.0;
+                // the library's own file-level function (the one the tables were generated with)
+                for r in climate::met::period_radiation_for_surface(&met.data, lat, tilt, az, 0.2) {
+                    dir[r.month as usize - 1] += r.dir / 1000.0;
+                    dif[r.month as usize - 1] += r.dif / 1000.0;
                 }
                 (dir, dif)
             };
